@@ -93,24 +93,36 @@ def referee(work, tier):
         open(os.path.join(d, "script.txt"), "w").write(" ".join(ms) + "\n")
         for side in ("w", "b"):
             sh = os.path.join(d, side + ".sh")
-            open(sh, "w").write("#!/bin/sh\nexec %s scripted-engine --script %s\n" % (exe, os.path.join(d, "script.txt")))
+            open(sh, "w").write("#!/bin/sh\nexec %s scripted-engine --script %s --log %s\n" % (exe, os.path.join(d, "script.txt"), os.path.join(d, side)))
             os.chmod(sh, 0o755)
         pgn = os.path.join(d, "game.pgn")
-        r = subprocess.run([reg, "--engine", "command=" + os.path.join(d, "w.sh"), "name=A", "--engine", "command=" + os.path.join(d, "b.sh"), "name=B",
-                            "--format", "5+0:1", "--threads", "1", "--pgn", pgn, "--seed", "1"], capture_output=True, text=True, timeout=300, cwd=d)
+        # every third game the engines are given options (one with a value, one without)
+        opts = (["option=Hash:16", "option=Clear Hash"] if i % 3 == 0 else [])
+        r = subprocess.run([reg, "--engine", "command=" + os.path.join(d, "w.sh"), "name=A"] + opts + ["--engine", "command=" + os.path.join(d, "b.sh"), "name=B"] + opts +
+                           ["--format", "5+0:1", "--threads", "1", "--pgn", pgn, "--seed", "1"], capture_output=True, text=True, timeout=300, cwd=d)
         text = open(pgn).read() if os.path.exists(pgn) else ""
         tagres, res, sans, nums_ok = parse_pgn(text)
-        return dict(script=ms, sans=sans, result=res, tagresult=tagres, numbers_ok=nums_ok, exit=r.returncode)
+        protos = []
+        for cf in sorted(glob.glob(os.path.join(d, "*.cmds"))):
+            words = [l.split()[0] for l in open(cf) if l.split()]
+            protos.append(dict(words=words, options=len(opts)))
+        return dict(script=ms, sans=sans, result=res, tagresult=tagres, numbers_ok=nums_ok, exit=r.returncode), protos
     with ThreadPoolExecutor(max_workers=12) as ex:
-        recs = list(ex.map(play, range(len(games))))
+        played = list(ex.map(play, range(len(games))))
+    recs = [p[0] for p in played]
+    protos = [q for p in played for q in p[1]]
     shards = []
     for k in range(8):
         p = os.path.join(work, "ref.%d.ndjson" % k)
         with open(p, "w") as f:
             for r in recs[k::8]:
                 f.write(json.dumps(r) + "\n")
+            for r in protos[k::8]:
+                f.write(json.dumps(r) + "\n")
         shards.append(p)
     viols, cnt, st = core.validate_shards(shards, module="RefereeTrace.tla", cfg="RefereeTrace.cfg", timeout=3000)
+    if cnt.get("engines", 0) != len(protos) or not protos:
+        raise InfraError("referee monitor consumed %d of %d engine command logs" % (cnt.get("engines", 0), len(protos)))
     if cnt.get("games", 0) != len(recs):
         raise InfraError("referee monitor consumed %d of %d games" % (cnt.get("games", 0), len(recs)))
     for k in ("mate", "threefold"):
